@@ -299,6 +299,51 @@ MULTI["C1-adapted-proto-cache-keyed-by-node-name"] = [
 _ADAPTED: dict = {}"""),
 ]
 
+# ---- round 7
+GR = "src/spox/_graph.py"
+# subgraph() memoises the traced body Graph per (callback object, argument types): one callable handed to
+# several body slots yields ONE shared Graph
+MULTI["S1-subgraph-memoised-per-callable"] = [
+    (GR, """    ins = enum_arguments(*types)
+    for var in ins:
+        var._rename(None)
+    if not callable(fun):
+        raise TypeError("Subgraph callback must be callable.")
+    outs = fun(*ins)""", """    if not callable(fun):
+        raise TypeError("Subgraph callback must be callable.")
+    try:
+        hit = _SUBGRAPH_MEMO.get(fun, {}).get(types)
+    except TypeError:
+        hit = None
+    if hit is not None:
+        return hit
+    ins = enum_arguments(*types)
+    for var in ins:
+        var._rename(None)
+    outs = fun(*ins)"""),
+    (GR, """    return enum_results(*outs).with_arguments(*ins)._with_constructor(fun)
+""", """    built = enum_results(*outs).with_arguments(*ins)._with_constructor(fun)
+    try:
+        _SUBGRAPH_MEMO.setdefault(fun, {})[types] = built
+    except TypeError:
+        pass
+    return built
+
+
+import weakref  # noqa: E402
+
+_SUBGRAPH_MEMO: "weakref.WeakKeyDictionary" = weakref.WeakKeyDictionary()
+"""),
+]
+# user-level _Introduce nodes (intro / unsafe_cast / unsafe_reshape) are pinned to the first graph reaching them
+MULTI["I1-introduce-nodes-not-lifted"] = [
+    (B, """            self.scope_tree.scope_of.setdefault(node, graph)
+""", """            self.scope_tree.scope_of.setdefault(node, graph)
+            if type(node).__name__ == "_Introduce":
+                return
+"""),
+]
+
 
 def sh(cmd, **kw):
     return subprocess.run(cmd, shell=True, capture_output=True, text=True, cwd=V, **kw)
